@@ -77,3 +77,18 @@ package pool
 //@   at call WriteAt#2 assert device-and-file-position-in-lockstep: sector - firstSector == sectorIndex - firstSectorIndex
 //@   at call WriteAt#3 assert device-and-file-position-in-lockstep: sector - firstSector == sectorIndex - firstSectorIndex && len(arg1) == f.fp.sectorSizeBytes
 //@   ensures writes-no-more-than-was-allocated: r3 == nil ==> r0 >= 1 && r0 <= old(len(p)) && r0 <= r2 * f.fp.sectorSizeBytes - offsetWithinSector
+
+// Shrinking a file to a size inside an allocated data sector overwrites the
+// cut-off tail of that sector with zeroes, so that growing the file again does
+// not bring the old bytes back (regions never written read as the hole
+// source's contents). devwrites(nil): block device writes made by this call
+// (/verif/stubs/filesystem.spec).
+//@ func (*blockDeviceBackedFile).Truncate
+//@   props C15
+//@   requires f.fp.sectorSizeBytes > 0 && f.fp.sectorSizeBytes <= 1048576
+//@   ensures shrinking-into-a-data-sector-zeroes-its-cut-off-tail:
+//@             r0 == nil && size > 0 && size % f.fp.sectorSizeBytes != 0 && size < old(f.sizeBytes) &&
+//@             size / f.fp.sectorSizeBytes < old(len(f.sectors)) && old(f.sectors[size / f.fp.sectorSizeBytes]) != 0
+//@             ==> devwrites(nil) == old(devwrites(nil)) + 1
+//@   at call WriteAt#1 assert zeroes-start-at-the-new-end-of-the-file: arg2 == (sector - 1) * f.fp.sectorSizeBytes + offsetWithinSector && len(arg1) > 0
+//@   ensures new-size-is-recorded: r0 == nil ==> f.sizeBytes == size
